@@ -2,6 +2,7 @@ package checks
 
 import (
 	"regexp"
+	"strings"
 	"time"
 
 	"verif/h"
@@ -12,7 +13,18 @@ import (
 
 var digitsRe = regexp.MustCompile(`[0-9]+`)
 
+var quotedRe = regexp.MustCompile(`"[^"]*"`)
+
 func whyClass(s string) string {
+	s = quotedRe.ReplaceAllString(s, "S")
+	if i := strings.Index(s, "reference "); i > 0 && strings.HasPrefix(s, "error term differs") {
+		s = s[:i]
+	}
+	if i := strings.Index(s, "reference raises "); i >= 0 {
+		if j := strings.Index(s, "; implementation"); j > i {
+			s = s[:i] + "reference raises a ball" + s[j:]
+		}
+	}
 	if len(s) > 60 {
 		s = s[:60]
 	}
